@@ -36,6 +36,17 @@ def rand_leaf(rng, hashable=False):
         s = S.free_string(rng, rng.choice([0, 3, 8, 20, 40]), w, space=0.1)
         if rng.random() < 0.2:
             s += rng.choice(["'", '"', "\n", "\\", "\t", "'\""])
+        if rng.random() < 0.06:
+            # a long string (a sentence in a script that stacks marks on letters: many more characters than cells),
+            # or its opposite (full-width text: many more cells than characters)
+            kind = rng.random()
+            n = rng.randint(50, 110)
+            if kind < 0.6:
+                s = "".join(rng.choice(S.ASCII_LETTERS + "  ") + (rng.choice(S.ZERO) if rng.random() < 0.4 else "")
+                            for _ in range(n))
+            else:
+                s = "".join(rng.choice(S.WIDE) if rng.random() < 0.5 else rng.choice(S.ASCII_LETTERS + " ")
+                            for _ in range(n))
         return s
     if r < 0.65:
         return bytes(rng.randrange(256) for _ in range(rng.randint(0, 6)))
@@ -222,6 +233,10 @@ def wl_values(ctx, rng, case_no):
     depth = rng.choice([1, 2, 3, 4, 6])
     v = rand_value(rng, depth)
     max_width = rng.choice([1, 2, 5, 10, 20, 40, 80, 80, 120, 200, rng.randint(1, 200)])
+    if rng.random() < 0.25:
+        # a width at, just below or just above what the one-line form needs (in cells)
+        max_width = max(1, cellref.width(repr(v)) + rng.choice([-2, -1, 0, 0, 0, 1, 3]))
+        ctx.count("mon.width_at_the_edge_of_fitting")
     indent_size = rng.choice([4, 4, 2, 1, 8])
     expand_all = rng.random() < 0.15
     if rng.random() < 0.05 and isinstance(v, (list, dict, tuple, set)):
